@@ -132,7 +132,7 @@ class Recorder:
         if len(self.violations) >= max_violations:
             return True
         if budget is None:
-            budget = 150 if self.tier == "quick" else 2400
+            budget = 300 if self.tier == "quick" else 2400
         if time.time() - self.t0 > budget:
             if not getattr(self, "_budget_noted", False):
                 self._budget_noted = True
@@ -273,7 +273,7 @@ def main_check(prop, tier, seed, replay_path=None, jobs=None):
         mod = importlib.import_module(modname)
         shards = mod.plan(tier, seed)
     mod = importlib.import_module(modname)
-    timeout = getattr(mod, "SHARD_TIMEOUT", {"quick": 240, "thorough": 3000}).get(tier, 600)
+    timeout = getattr(mod, "SHARD_TIMEOUT", {"quick": 480, "thorough": 3000}).get(tier, 600)
     results, failures = run_shards(prop, modname, tier, seed, shards, jobs, timeout)
 
     ev = 0
